@@ -1805,9 +1805,12 @@ def _readsegment(
             result += before
             return after, result
 
-        buf = _recv(sock, RECV_SIZE)
-        if not buf:
+        # Keep what has been received so far: the end tokens may arrive in a
+        # later chunk than the data, or be split across two chunks.
+        chunk = _recv(sock, RECV_SIZE)
+        if not chunk:
             raise MemcacheUnexpectedCloseError()
+        buf += chunk
 
 
 def _recv(sock: socket.socket, size: int) -> bytes:
